@@ -274,10 +274,14 @@ func RunXdr(vecFile string, t *Trace) error {
 			types[p.Res] = m.Type.Out(0)
 		}
 	}
+	isArg := map[string]bool{} // the types the SERVER decodes
+	for _, p := range procs {
+		isArg[p.Arg] = true
+	}
 	t.Emit(map[string]interface{}{"ev": "reset", "seg": 0, "driver": "xdr", "seed": 0, "disksz": 0, "unstable": true, "root": "", "keephist": false})
 	for i, vc := range vecs {
 		ev := map[string]interface{}{"ev": "xdr", "i": i, "type": vc.Type, "val": vc.Val, "built": false, "got": []int{}, "decerr": "",
-			"redec": []int{}, "trunc": 0, "truncok": 0, "note": ""}
+			"redec": []int{}, "trunc": 0, "truncok": 0, "note": "", "mut": 0, "mutpanic": 0, "mutunstable": 0}
 		gt, ok := types[vc.Type]
 		if !ok {
 			ev["note"] = "no Go type"
@@ -322,6 +326,49 @@ func RunXdr(vecFile string, t *Trace) error {
 			}
 		}
 		ev["trunc"], ev["truncok"] = n, okc
+		// every 4-byte word overwritten with extreme values: the decoder either rejects the message or accepts a value
+		// whose encoding decodes to the same value again; it never panics
+		mut, mpanic, munstable := 0, 0, 0
+		words := len(sb) / 4
+		step := 1
+		if words > 24 {
+			step = (words - 12) / 12
+		}
+		for w := 0; w < words; w++ {
+			if w >= 12 && (w-12)%step != 0 { // the first words (discriminants, lengths) and a dozen spread over the rest
+				continue
+			}
+			vals := []uint32{0xFFFFFFFF, 0x7FFFFFFF, 0x80000000, 2}
+			if !isArg[vc.Type] {
+				// result types are decoded by clients only; the generated decoder of Mountres3 allocates and walks an
+				// array of the size it reads from the wire before it notices the end of the message (minutes for 2^32):
+				// no property of the server is concerned, so only small values are tried there
+				vals = []uint32{2, 255}
+			}
+			for _, val := range vals {
+				mb := append([]byte{}, sb...)
+				mb[4*w], mb[4*w+1], mb[4*w+2], mb[4*w+3] = byte(val>>24), byte(val>>16), byte(val>>8), byte(val)
+				mut++
+				d1 := reflect.New(gt)
+				err := decode(mb, d1)
+				if err != nil {
+					if strings.HasPrefix(err.Error(), "panic") {
+						mpanic++
+					}
+					continue
+				}
+				b2, err := encode(d1)
+				if err != nil {
+					munstable++
+					continue
+				}
+				d2 := reflect.New(gt)
+				if decode(b2, d2) != nil || !reflect.DeepEqual(normalize(d2.Elem().Interface()), normalize(d1.Elem().Interface())) {
+					munstable++
+				}
+			}
+		}
+		ev["mut"], ev["mutpanic"], ev["mutunstable"] = mut, mpanic, munstable
 		t.Emit(ev)
 	}
 	// dispatch: every procedure number through the registration table, compared with the direct call
